@@ -31,8 +31,9 @@ impl Property for C14 {
         "differential: one generated history (with and without explicit persist calls, with restarts) is resolved \
          once and then executed in lock-step under all 9 policies {DoNothing, OnDelay(0 | 1us | 1h) x (Flush | \
          FlushAndFsync), Always(Flush), Always(FlushAndFsync)}; after every call the outcome (position, eviction \
-         count, error variant, wal_bytes_written) and the full observable state of each run must equal those of the \
-         reference run (Always(Flush)); after a final drop + open likewise (purely differential: no model involved). \
+         count, error variant), the full observable state and disk_used_bytes of each run must equal those of the \
+         reference run (Always(Flush); a second run under that same policy must agree with the first, otherwise the case is \
+         skipped as non-deterministic); after a final drop + open likewise (purely differential: no model involved). \
          evaluations = (policy, call) pairs compared. non-trivial = history with >= 1 roll-over and >= 1 file unlink; \
          distinct = hash of the concrete op list."
             .to_string()
@@ -54,13 +55,13 @@ impl Property for C14 {
     }
 
     fn run(&self, case: &Case, env: &mut Env) -> Result<(), CaseError> {
-        // reference run
+        // reference run (resolves the generated selectors into concrete calls)
         let dir = env.scratch.fresh("c14-ref");
         let mut exec = Exec::new(&dir, Policy::DEFAULT)?;
         let mut ops = case.ops.clone();
         ops.push(SOp::Restart { policy: None });
-        let mut ref_outcomes: Vec<(Outcome, u64)> = Vec::new();
-        let mut ref_states: Vec<State> = Vec::new();
+        // per call: (outcome, observable state, disk_used_bytes)
+        let mut reference: Vec<(Outcome, State, usize)> = Vec::new();
         let mut rollovers = 0u64;
         let mut unlinks = 0u64;
         for sop in &ops {
@@ -73,40 +74,47 @@ impl Property for C14 {
                     _ => {}
                 }
             }
-            let state = exec.driver.observe().map_err(|msg| {
-                exec.failure(format!("reference run: {msg}"), "observe-failed", json!({}))
-            })?;
-            ref_outcomes.push((step.real.outcome.clone(), step.real.wal_bytes));
-            ref_states.push(state);
+            let state = exec.driver.observe().map_err(|_| CaseError::Skip("live-state-unobservable".to_string()))?;
+            let disk = exec.driver.log.as_ref().unwrap().resource_usage().disk_used_bytes;
+            reference.push((step.real.outcome.clone(), state, disk));
         }
         exec.driver.close()?;
         let cops: Vec<COp> = exec.cops.clone();
-        for policy in Policy::ALL {
-            if policy == Policy::DEFAULT {
-                continue;
-            }
+        // The same policy a second time: if two runs under ONE policy already differ, the behaviour is not a function
+        // of the call sequence (e.g. it depends on hash-map iteration order) and nothing can be attributed to the policy.
+        let mut policies: Vec<Policy> = vec![Policy::DEFAULT];
+        policies.extend(Policy::ALL.iter().copied().filter(|policy| *policy != Policy::DEFAULT));
+        for (round, policy) in policies.into_iter().enumerate() {
             let other_dir = env.scratch.fresh("c14-other");
             let mut other = Exec::new(&other_dir, policy)?;
             for (idx, cop) in cops.iter().enumerate() {
                 let step = other.step_concrete(cop.clone())?;
                 env.evals(1);
-                if (step.real.outcome.clone(), step.real.wal_bytes) != ref_outcomes[idx] {
-                    return Err(exec.failure(
-                        format!(
-                            "op #{idx} {}: under {policy:?} the call returned {:?} (wal bytes {}), under Always(Flush) {:?} (wal bytes {})",
-                            cop.short(), step.real.outcome, step.real.wal_bytes, ref_outcomes[idx].0, ref_outcomes[idx].1
-                        ),
-                        "policy-outcome-differs",
-                        json!({"policy": policy}),
-                    ));
+                let state = other.driver.observe();
+                let disk = other.driver.log.as_ref().map(|log| log.resource_usage().disk_used_bytes).unwrap_or(0);
+                let (ref_outcome, ref_state, ref_disk) = &reference[idx];
+                let mut difference: Option<(String, &'static str)> = None;
+                if step.real.outcome != *ref_outcome {
+                    difference = Some((format!("the call returned {:?}, under Always(Flush) {:?}", step.real.outcome, ref_outcome), "policy-outcome-differs"));
+                } else {
+                    match &state {
+                        Err(msg) => difference = Some((format!("read accessors failed: {msg}"), "policy-state-differs")),
+                        Ok(state) => {
+                            if let Some(diff) = diff_states(ref_state, state) {
+                                difference = Some((format!("observable state differs from the state under Always(Flush): {diff}"), "policy-state-differs"));
+                            } else if disk != *ref_disk {
+                                difference = Some((format!("disk_used_bytes = {disk}, under Always(Flush) {ref_disk}"), "policy-disk-usage-differs"));
+                            }
+                        }
+                    }
                 }
-                let state = other.driver.observe().map_err(|msg| {
-                    exec.failure(format!("run under {policy:?}: {msg}"), "observe-failed", json!({"policy": policy}))
-                })?;
-                if let Some(diff) = diff_states(&ref_states[idx], &state) {
+                if let Some((what, signature)) = difference {
+                    if round == 0 {
+                        return Err(CaseError::Skip("nondeterministic-under-one-policy".to_string()));
+                    }
                     return Err(exec.failure(
-                        format!("after op #{idx} {}: state under {policy:?} differs from state under Always(Flush): {diff}", cop.short()),
-                        "policy-state-differs",
+                        format!("op #{idx} {}: under {policy:?} {what}", cop.short()),
+                        signature,
                         json!({"policy": policy}),
                     ));
                 }
